@@ -83,7 +83,7 @@ func (f *c31File) size() int {
 	return n
 }
 
-// leanStr encodes a byte string as the natural number 1::bytes in base 256
+// c31LeanStr encodes a byte string as the natural number 1::bytes in base 256
 func c31LeanStr(s string) string {
 	if s == "" {
 		return "1"
